@@ -18,6 +18,8 @@ import (
 	"strings"
 	"unicode"
 	"unicode/utf8"
+
+	"golang.org/x/tools/go/ssa"
 )
 
 const zzPkg = modPath + "/internal/zzverif"
@@ -93,7 +95,7 @@ func registerExternals(w *World) {
 		return nil, true
 	}
 	x[zzPkg+".Cell"] = func(fr *frame, args []value) (value, bool) {
-		fr.in.path.cells = append(fr.in.path.cells, toGoString(args[0]))
+		fr.in.path.cells = []string{toGoString(args[0])}
 		return nil, true
 	}
 	x[zzPkg+".Unwind"] = func(fr *frame, args []value) (value, bool) {
@@ -764,11 +766,11 @@ func (in *interp) writeTo(fr *frame, w iface, s value) value {
 		return tuple{n, iface{}}
 	}
 	// generic: prefer WriteString, else Write([]byte)
-	if m := in.prog.LookupMethod(w.t, nil, "WriteString"); m != nil {
+	if m := in.lookupMethodByName(w.t, "WriteString"); m != nil {
 		in.call(fr, token.NoPos, m, []value{w.v, s})
 		return tuple{n, iface{}}
 	}
-	if m := in.prog.LookupMethod(w.t, nil, "Write"); m != nil {
+	if m := in.lookupMethodByName(w.t, "Write"); m != nil {
 		if ss, ok := s.(*SymStr); ok && ss.hasAtom() {
 			panic(unsupported{"writing atom string through io.Writer.Write"})
 		}
@@ -799,7 +801,7 @@ func (in *interp) errorsUnwrap(fr *frame, e iface) value {
 	if e.t == nil {
 		return iface{}
 	}
-	m := in.prog.LookupMethod(e.t, nil, "Unwrap")
+	m := in.lookupMethodByName(e.t, "Unwrap")
 	if m == nil {
 		return iface{}
 	}
@@ -823,7 +825,7 @@ func (in *interp) errorsIs(fr *frame, err, target iface) value {
 				return true
 			}
 		}
-		if m := in.prog.LookupMethod(err.t, nil, "Is"); m != nil {
+		if m := in.lookupMethodByName(err.t, "Is"); m != nil {
 			if in.truth(in.call(fr, token.NoPos, m, []value{err.v, target})) {
 				return true
 			}
@@ -1023,3 +1025,11 @@ func extSscanf(fr *frame, args []value) (value, bool) {
 
 var _ = bytes.Equal
 var _ = math.Abs
+
+// lookupMethodByName returns the exported method of t named name, or nil.
+func (in *interp) lookupMethodByName(t types.Type, name string) *ssa.Function {
+	if sel := in.prog.MethodSets.MethodSet(t).Lookup(nil, name); sel == nil {
+		return nil
+	}
+	return in.prog.LookupMethod(t, nil, name)
+}
